@@ -4,7 +4,10 @@ import numpy as np
 from vmon import events
 from vmon.oracle import geometry as G
 
-REPL_KINDS = ["empty", "smaller_shared", "smaller_disjoint", "equal_substitution", "equal_identical", "equal_partial", "larger_shared", "larger_disjoint", "far_reaching"]
+REPL_KINDS = ["empty", "smaller_shared", "smaller_disjoint", "equal_substitution", "equal_identical", "equal_partial", "larger_shared", "larger_disjoint", "far_reaching", "nudged"]
+# "nudged": an atom of the search pattern reappears in the replacement with the same element but displaced by a small, clearly
+# non-zero amount (a corrected bond length): it is NOT common to both patterns (common = same element, same coordinates)
+NUDGES = [2e-5, 3e-5, 6e-5, 3e-4, 1e-3, 0.02, 0.08]
 NEW_ELEMENTS = ["Si", "Ge", "Se", "Hf", "Ti", "Al", "C", "O", "N"]
 
 
@@ -69,6 +72,21 @@ def make_replacement(rng, pat, kind, reach=2.5):
     elif kind == "far_reaching":
         keep(sorted(rng.choice(n, size=int(rng.integers(0, n + 1)), replace=False)))
         add_new(int(rng.integers(2, 5)), 6.0)
+    elif kind == "nudged":
+        moved = sorted(int(x) for x in rng.choice(n, size=int(rng.integers(1, min(n, 2) + 1)), replace=False))
+        for i in range(n):
+            if i in moved:
+                mag = NUDGES[int(rng.integers(len(NUDGES)))]
+                v = rng.normal(size=3)
+                if rng.integers(2):
+                    v = np.array([1.0, 1.0, 1.0]) * rng.choice([-1, 1], 3)     # equal components: the norm is sqrt(3) x each
+                v = v / np.linalg.norm(v) * mag
+                els.append(pels[i])
+                pos.append(ppos[i] + v)
+            elif rng.integers(3):
+                keep([i])
+        if rng.integers(2):
+            add_new(1, reach)
     else:
         raise ValueError(kind)
     # shuffle the replacement's atom order: it need not follow the search pattern's
